@@ -22,8 +22,9 @@ import (
 
 // viewFields: "pkg.Type.field" -> the array field of the same struct it is a window into
 var viewFields = map[string]string{
-	"stream.Reader.unread":    "buf",
-	"stream.Writer.unwritten": "buf",
+	"stream.Reader.unread":       "buf",
+	"stream.Writer.unwritten":    "buf",
+	"armor.armoredReader.unread": "buf",
 }
 
 type view struct {
@@ -246,6 +247,11 @@ func (c *fctx) assignSpecial(e *emitter, ind int, st *ast.AssignStmt) bool {
 				if rv, ok := c.viewOf(st.Rhs[0]); ok {
 					return c.bindView(e, ind, st.Lhs[0], rv, define)
 				}
+				// view = nil: the empty window
+				if lv, ok := c.viewOf(st.Lhs[0]); ok && lv.setLoHi != nil && !define && c.isNil(st.Rhs[0]) {
+					lv.setLoHi(e, ind, "(0 : Int)", "(0 : Int)")
+					return true
+				}
 			}
 		}
 	}
@@ -323,6 +329,25 @@ func (c *fctx) assignSpecial(e *emitter, ind int, st *ast.AssignStmt) bool {
 		for i, l := range st.Lhs {
 			c.assignTo(e, ind, l, proj(i), define)
 		}
+		return true
+	}
+	// n, err := base64.StdEncoding.Strict().Decode(view, src): the decoder is abstract; what it wrote (also when it
+	// fails part-way) goes through the view into the array
+	if f, ok := obj.(*types.Func); ok && f.Pkg() != nil && f.Pkg().Path() == "encoding/base64" && f.Name() == "Decode" && len(st.Lhs) == 2 {
+		if c.t.pr.text(c.fi.Pkg, ast.Unparen(call.Fun).(*ast.SelectorExpr).X) != "base64.StdEncoding.Strict()" {
+			c.fail(st, "Decode of an encoding other than base64.StdEncoding.Strict()")
+		}
+		dv, ok := c.viewOf(call.Args[0])
+		if !ok {
+			c.fail(st, "base64 Decode into something that is not a view")
+		}
+		c.useAbstractName("base64_StdStrict_Decode", "(base64_StdStrict_Decode : (List UInt8) → Go.M ((List UInt8) × (Option Go.Err)))")
+		t := c.tmp()
+		e.add(ind, fmt.Sprintf("let %s ← base64_StdStrict_Decode %s", t, c.expr(call.Args[1])))
+		e.add(ind, fmt.Sprintf("if (Go.len %s.1) > %s then throw Go.Fault.index", t, dv.length()))
+		c.writeThrough(e, ind, dv, t+".1")
+		c.assignTo(e, ind, st.Lhs[0], "(Go.len "+t+".1)", define)
+		c.assignTo(e, ind, st.Lhs[1], t+".2", define)
 		return true
 	}
 	// n, err := io.ReadFull(src, view)
